@@ -89,6 +89,9 @@ def faults(rng):
         return m
     fs += [("unknown-type", meta_line(b"var q1 strange", 8, "unknown metavariable type")),
            ("unknown-type-indented", meta_line(b"   var q1, q2   strnge", 17, "unknown metavariable type")),
+           # a declaration that names nothing ("_" only) is checked all the same
+           ("unknown-type-blank", meta_line(b"var _ bogus", 7, "unknown metavariable type")),
+           ("unknown-type-blanks", meta_line(b"var _, _ expresion", 10, "unknown metavariable type")),
            ("duplicate-same-line", meta_line(b"var dupX, dupX expression", 11, "cannot define metavariable")),
            ("duplicate-grouped", meta_line(b"var u1, u2, u1 identifier", 13, "cannot define metavariable")),
            ("missing-var", meta_line(b"x9 expression", 1, 'expected "var"')),
